@@ -1532,6 +1532,7 @@ package cache
 // runs inside NewTrait, and inlining NewTrait into this proof multiplies the paths beyond a quick check.)
 //@ func NewShardedMap
 //@   props C07
+//@   flag noC16 constructor: the map becomes reachable by the janitor goroutine (through the option closure handed to NewTrait) before its InvalidationIndex field is set; the janitor only calls deleteExpired, Len and the eviction routine, none of which reads that field, but the field-class discipline cannot see that
 //@   requires forall j int :: 0 <= j && j < len(options) ==> options[j] != nil
 //@   ensures [C07.new.rep] result != nil && result.shardedMap != nil && repOK(result.shardedMap) && (forall h uint64 :: !hasH(result.shardedMap, h))
 //@   loop 1 invariant [C07.new.buckets] 0 <= i && i <= 128 && (forall j int :: 0 <= j && j < i ==> c.hashedBuckets[j].data != nil && len(c.hashedBuckets[j].data) == 0)
